@@ -910,7 +910,8 @@ func replayCase(s *search, path string) {
 		pathConversionCheck(rep)
 		_ = os.MkdirAll(s.runDir+"/w0/r", 0o755)
 		rep.Coverage["name_resemblance_probes"] = namesDoNotMatter(rep, s.runDir+"/w0/r")
-		rep.Coverage["states"], rep.Coverage["transitions"], rep.Coverage["exhaustive"] = 0, 0, false
+		n, _ := rep.Coverage["name_resemblance_probes"].(int)
+		rep.Coverage["states"], rep.Coverage["transitions"], rep.Coverage["exhaustive"] = 1, 2*n+1, false // one tree, two calls per probe
 		rep.Coverage["traces_validated_against_impl"] = 0
 		rep.Coverage["samples"] = []any{map[string]any{"replayed_signature": head.Signature}}
 		return
